@@ -29,6 +29,8 @@ JOBS = {
         e2e('e2e_u8_n2_e1_r0', 'uint8_t', 2, 1, 0),
         e2e('e2e_u8_n3_e1_r1', 'uint8_t', 3, 1, 1),
         e2e('e2e_u8_n3_e1_r0', 'uint8_t', 3, 1, 0),
+        e2e('e2e_u8_n4_e1_r0', 'uint8_t', 4, 1, 0, tiers=('thorough',), timeout=3000),
+        e2e('e2e_u8_n5_e1_r0', 'uint8_t', 5, 1, 0, tiers=('thorough',), timeout=3400),
     ],
 }
 
